@@ -8,8 +8,14 @@ def register(CHECKS, T):
      "quick_cases":20000,"thorough_s":600,"max_len":256,"defs":[],"assumptions":[...]}"""
     root = os.path.dirname(os.path.abspath(__file__))
     for path in sorted(glob.glob(os.path.join(root, "targets", "*.reg.json"))):
-        r = json.load(open(path))
-        pid = r.pop("property")
+        try:
+            r = json.load(open(path))
+            pid = r.pop("property")
+            r["name"], r["src"]
+        except Exception as e:  # a half-written registration must not take the other checks down
+            import sys
+            sys.stderr.write("[vf] ignoring %s: %s\n" % (path, e))
+            continue
         for a in r.pop("assumptions", []):
             ASSUMPTIONS.setdefault(pid, [])
             if a not in ASSUMPTIONS[pid]:
